@@ -16,6 +16,8 @@ sys.path.insert(0, os.path.join(ROOT, "tools"))
 BRIDGES = {   # kind -> (class, generated module, bridge module)
     "lru": ("lru_cache", "GenLru", "LruBridge"),
     "mru": ("mru_cache", "GenMru", "MruBridge"),
+    "fifo": ("fifo_cache", "GenFifo", "FifoBridge"),
+    "rr": ("rr_cache", "GenRr", "RrBridge"),
 }
 FORBIDDEN = re.compile(r"\b(Admitted|admit|Axiom|Axioms|Parameter|Parameters|Conjecture)\b|Unset\s+Guard|bypass_check|Admit Obligations")
 
@@ -38,7 +40,8 @@ def bridge(kind, repo, build, coqdir):
                what="the translation of the current %s.hpp equals the literal machine (%s)" % (cls, bmod))
     hdrs = sorted(os.path.join(dp, f) for dp, _, fs in os.walk(inc) for f in fs)
     vos = sorted(os.path.join(coqdir, f) for f in os.listdir(coqdir) if f.endswith(".vo"))
-    stamp_val = _hash(hdrs + [os.path.join(ROOT, "tools", "cpp2coq.py"), bsrc] + vos)
+    trs = sorted(os.path.join(ROOT, "tools", f) for f in os.listdir(os.path.join(ROOT, "tools")) if f.startswith("cpp2coq"))
+    stamp_val = _hash(hdrs + trs + [bsrc] + vos)
     stamp = os.path.join(gen, bmod + ".stamp")
     if os.path.exists(stamp):
         s = open(stamp).read().split("\n")
